@@ -429,7 +429,7 @@ pub fn main(mut chk: Check) -> ! {
     for p in chk.committed_replays() {
         chk.replay_one::<Case, _>("configs-x-histories", &p, oracle);
     }
-    let n = chk.tier().pick(20_000, 400_000);
+    let n = chk.tier().pick(200_000, 1_000_000);
     chk.run("configs-x-histories", n, case_strategy(), oracle);
     chk.finish()
 }
